@@ -119,11 +119,23 @@ theorem tracked_pseudoBranch (i : String) (m : FTok) (a b : W Reg) (l : W String
   unfold pseudoBranch
   exact tracked_bind tracked_rawNow (fun _ => tracked_pure _)
 
+theorem tracked_dropBad : Tracked dropBad := by
+  intro s
+  rw [runP_dropBad]
+  simp only []
+  split
+  · rename_i t k p rest heq
+    exact ⟨[.strErr t k p], by simp [heq], by simp [rawAfter, rawStep]⟩
+  · rename_i t rest heq
+    exact ⟨[.unexpected t], by simp [heq], by simp [rawAfter, rawStep]⟩
+  · exact ⟨[], by simp, rfl⟩
+
 attribute [local irreducible] Tracked getReg getImm getLabel getCsrImm getString getAny peekAny expectRParen rawNow
-  pseudoBranch liftE
+  pseudoBranch liftE dropBad
 
 macro "tr_step" : tactic => `(tactic| first
   | exact tracked_pure _
+  | exact tracked_dropBad
   | exact tracked_getReg | exact tracked_getImm | exact tracked_getLabel | exact tracked_getCsrImm
   | exact tracked_getString | exact tracked_getAny | exact tracked_peekAny | exact tracked_expectRParen
   | exact tracked_rawNow | exact tracked_get
